@@ -312,6 +312,47 @@ func (e *Engine) nameWritersResult() *FuncResult {
 				ctx.addOblig("refkinds", proc+":handles:"+kd, BoolLit(ok), e.pos(pf))
 			}
 		}
+		// the renaming visitor runs over ALL the schemas the pass was given (a reference to the renamed
+		// object can sit in any of them): Process hands its own schemas parameter to VisitSchemas
+		visitsAll := false
+		for _, b := range pf.Blocks {
+			for _, in := range b.Instrs {
+				c, ok := in.(*ssa.Call)
+				if !ok {
+					continue
+				}
+				sc := c.Call.StaticCallee()
+				if sc == nil || funcKey(sc) != "compiler.(*Visitor).VisitSchemas" || len(c.Call.Args) != 2 || len(pf.Params) < 2 {
+					continue
+				}
+				arg := c.Call.Args[1]
+				if ct, isCT := arg.(*ssa.ChangeType); isCT { // []*ast.Schema -> ast.Schemas
+					arg = ct.X
+				}
+				if arg == ssa.Value(pf.Params[1]) {
+					visitsAll = true
+				}
+				// the parameter spilled into a local cell that is only ever assigned the parameter
+				if ld, isLoad := arg.(*ssa.UnOp); isLoad {
+					if al, isAlloc := ld.X.(*ssa.Alloc); isAlloc {
+						only := true
+						n := 0
+						for _, r := range *al.Referrers() {
+							if st, isStore := r.(*ssa.Store); isStore && st.Addr == ssa.Value(al) {
+								n++
+								if st.Val != ssa.Value(pf.Params[1]) {
+									only = false
+								}
+							}
+						}
+						if only && n > 0 {
+							visitsAll = true
+						}
+					}
+				}
+			}
+		}
+		ctx.addOblig("refkinds", proc+":renaming-visitor-is-applied-to-every-schema", BoolLit(visitsAll), e.pos(pf))
 		// the entry point names an object of the schema: a renaming pass writes it somewhere
 		writesEntry := false
 		for _, f := range e.passFunctions(proc) {
